@@ -17,7 +17,7 @@ import contextlib
 import struct
 import types
 
-DELTA = 0.01          # every look at the clock costs DELTA > 0 (the deadline-loop hypothesis)
+DELTA = 1.0 / 64          # every look at the clock costs DELTA > 0 (the deadline-loop hypothesis)
 TIMEOUT = 1           # client timeout used everywhere (virtual seconds)
 
 KINDS = ["tcp", "udp", "rtu", "ascii", "binary", "tcp_rtu", "tcp_ascii", "tcp_binary"]
@@ -69,11 +69,10 @@ class Peer:
     # -- client side events
     def tx(self, data):
         data = bytes(data)
-        if self.tx_err:
-            self.tx_err = False
-            raise BrokenPipeError(32, "scripted")
-        self.written.append(data)
         react = self.script.pop(0) if self.script else ("full", {})
+        if react[0] == "oserror" and react[1].get("on_send"):
+            raise BrokenPipeError(32, "scripted")          # this write fails; nothing reaches the peer
+        self.written.append(data)
         self.react(react, data)
         return len(data)
 
@@ -99,14 +98,13 @@ class Peer:
         elif name == "late":
             self.q.append([now + TIMEOUT + 5 * DELTA + 0.5, a["full"]])
         elif name == "oserror":
-            if p.get("on_send"):
-                self.tx_err = True        # the NEXT write fails
-            else:
-                self.rx_err = "oserror"
+            self.rx_err = "oserror"
         elif name == "close":
             self.rx_err = "close"
         elif name == "twoframes":          # a good frame followed by a second one in the same read
             self.q.append([now, a["full"] + a["exc"]])
+        elif name == "twobad":             # a good frame followed by one the decoder rejects
+            self.q.append([now, a["full"] + a["bad"]])
         else:
             raise ValueError(name)
 
@@ -370,13 +368,15 @@ def decoded_dump(pdu):
 
 class Rig:
     def __init__(self, kind, retries=None, retry_on_empty=False, retry_on_invalid=False, broadcast_enable=False,
-                 tid0=0, backoff=None):
+                 tid0=0, backoff=None, timeout=TIMEOUT):
         from pymodbus.client import sync
         self.kind = kind
         self.clock = VClock()
         self.stream_tcp = kind in ("tcp", "tcp_rtu", "tcp_ascii", "tcp_binary")
         self.peer = Peer(self.clock, datagram=(kind == "udp"), stream_reset_on_reconnect=self.stream_tcp or kind == "udp")
-        kw = dict(retry_on_empty=retry_on_empty, retry_on_invalid=retry_on_invalid, timeout=TIMEOUT)
+        kw = dict(retry_on_empty=retry_on_empty, retry_on_invalid=retry_on_invalid)
+        if timeout != "default":
+            kw["timeout"] = timeout
         if retries is not None:
             kw["retries"] = retries
         if broadcast_enable:
@@ -539,10 +539,16 @@ class Rig:
                 "stale": bf.buildPacket(RawMsg((tid + 77) & 0xffff, unit, pdu)) if FRAMING[self.kind] == "FTcp"
                 else bf.buildPacket(RawMsg(tid, unit, other_pdu(fc))),
                 "stale_fc": bf.buildPacket(RawMsg(tid, unit, other_pdu(fc))),
+                "bad": bf.buildPacket(RawMsg(tid, unit, b"\x60\x01")),
             }
         self.peer.reply_for = reply_for
+        self.last_full_frame = reply_for(b"\0\0")["full"]
         self.peer.script = list(script)
         self.peer.refuse = refuse
+        # time passes between two calls: whatever was still on its way has arrived by now
+        dues = [d for d, b in self.peer.q]
+        if dues and max(dues) > self.clock.t:
+            self.clock.t = max(dues) + DELTA
         self.peer.written = []
         self.trace, self.fr_events, self.delivered = [], [], []
         nsleep0 = len(self.clock.sleeps)
@@ -552,6 +558,7 @@ class Rig:
         entry_tx = len(c.transaction.transactions)
         entry_connected = bool(c.socket)
         hang = False
+        surplus_before = self.peer.avail()
         with self.patched():
             try:
                 r = c.execute(req)
@@ -592,5 +599,134 @@ class Rig:
             "written": list(self.peer.written), "result": res,
             "sleeps": [int(round(d / backoff * 2)) for d in delays],
             "exit": {"ntx": len(c.transaction.transactions), "noresp": list(c.transaction._no_response_devices),
-                     "tid": int(c.transaction.tid)},
+                     "tid": int(c.transaction.tid), "state": self.fstate(), "connected": bool(c.socket)},
+            "full_frame": self.last_full_frame.hex(),
+            "refused": any(t[0] == "connect" and not t[1] for t in self.trace),
+            "surplus_before": surplus_before, "surplus_after": self.peer.avail(),
         }
+
+
+# ----------------------------------------------------------------------------- Coq terms
+
+def z(n):
+    n = int(n)
+    return "(%d)" % n if n < 0 else "%d" % n
+
+
+def cbytes(b):
+    return "[" + ";".join("%d%%N" % x for x in bytes(b)) + "]"
+
+
+def cbool(b):
+    return "true" if b else "false"
+
+
+def copt(v):
+    return "(@None Z)" if v is None else "(Some %s)" % z(v)
+
+
+def cmsg(m):
+    return "{| m_tid := %s; m_uid := %s; m_fc := %s; m_id := %s |}" % tuple(z(x) for x in m)
+
+
+def clist(items):
+    return "[" + "; ".join(items) + "]"
+
+
+def cresult(r):
+    if r[0] == "reply":
+        return "(RReply %s)" % cmsg(r[1:])
+    if r[0] == "err":
+        return "(RErr %s)" % copt(r[1])
+    if r[0] == "bcast":
+        return "RBroadcast"
+    if r[0] == "none":
+        return "RNone"
+    if r[0] == "raise":
+        return "(RRaise %s)" % r[1]
+    return "RStuck"          # hang / foreign object: never equal to a model result, never accepted by an oracle
+
+
+BEH = {"full": "BFull", "exc": "BExc", "nothing": "BNothing", "partial": "BPartial", "garbage": "BGarbage",
+       "wrongunit": "BWrongUnit", "stale": "BStale", "late": "BLate", "oserror": "BOSError", "close": "BClose"}
+
+
+def script_and_calls(trace):
+    sc, calls = [], []
+    for t in trace:
+        if t[0] == "connect":
+            calls.append("CConnect")
+            sc.append("Nothing" if t[1] else "Closed")
+        elif t[0] == "send":
+            if t[2] == "notconn":
+                continue
+            calls.append("(CSend %s)" % cbytes(t[1]))
+            sc.append("Nothing" if t[2] == "ok" else "RaiseOSError")
+        else:
+            if t[2] == "notconn":
+                continue
+            calls.append("(CRecv %s)" % copt(t[1]))
+            sc.append("RaiseOSError" if t[2] == "oserror" else ("(Data %s)" % cbytes(t[3]) if t[3] else "Nothing"))
+    return sc, calls
+
+
+def txn_term(o, req_id, behs):
+    sc, calls = script_and_calls(o["trace"])
+    return ("{| x_req := {| r_unit := %s; r_fc := %s; r_psize := %s; r_id := %s |}; x_script := %s;\n"
+            "   x_calls := %s; x_result := %s; x_sleeps := %s;\n"
+            "   x_fs_exit := %s; x_noresp_exit := %s; x_tid_exit := %s; x_ntx_exit := %s; x_conn_exit := %s;\n"
+            "   x_want_tid := %s; x_behs := %s; x_exp_full := %s; x_exp_exc := %s; x_delivered := %s; x_refused := %s |}") % (
+        z(o["unit"]), z(o["fc"]), copt(o["pdu_size"]), z(req_id), clist(sc),
+        clist(calls), cresult(o["result"]), clist(z(x) for x in o["sleeps"]),
+        z(o["exit"]["state"]), clist(z(x) for x in o["exit"]["noresp"]), z(o["exit"]["tid"]), z(o["exit"]["ntx"]),
+        cbool(o["exit"]["connected"]),
+        z(o["want_tid"]), clist(BEH.get(b, "BOther") for b in behs), z(o["expected"]["full"] or 0),
+        z(o["expected"]["exc"] or 0), clist(cmsg(m) for m in o["delivered"]), cbool(o["refused"]))
+
+
+def table_term(rig, obs_list, req_ids):
+    """the recorded framer: transitions seen in this case"""
+    nonempty, reset, process, build = {}, {}, [], {}
+    for o, rid in zip(obs_list, req_ids):
+        nonempty[o["entry"]["state"]] = o["entry"]["nonempty"]
+        for ev in o["framer"]:
+            if ev[0] == "reset":
+                reset[ev[1]] = ev[2]
+            else:
+                process.append(ev)
+        for t in o["trace"]:
+            if t[0] == "send" and t[2] != "notconn":
+                tid = o["want_tid"]
+                build[(rid, tid)] = t[1]
+    return ("{| ft_nonempty := %s; ft_reset := %s;\n   ft_process := %s;\n   ft_build := %s |}" % (
+        clist("(%s, %s)" % (z(k), cbool(v)) for k, v in sorted(nonempty.items())),
+        clist("(%s, %s)" % (z(k), z(v)) for k, v in sorted(reset.items())),
+        clist("(%s, %s, %s, (%s, %s, %s))" % (z(e[1]), cbytes(e[2]), z(e[3]), z(e[4]), clist(cmsg(m) for m in e[5]),
+                                               "None" if e[6] is None else "(Some %s)" % e[6]) for e in process),
+        clist("(%s, %s, %s)" % (z(k[0]), z(k[1]), cbytes(v)) for k, v in sorted(build.items()))))
+
+
+def cfg_term(kind, retries, roe, roi, bcast=False):
+    return "{| c_framing := %s; c_udp := %s; c_retries_kw := %s; c_roe := %s; c_roi := %s; c_bcast := %s |}" % (
+        FRAMING[kind], cbool(kind == "udp"), copt(retries), cbool(roe), cbool(roi), cbool(bcast))
+
+
+def run_case(spec):
+    """spec: dict(kind, retries, roe, roi, tid0, bcast, txs=[dict(req=<name>, unit, script=[(beh, params)…], refuse)])
+    -> (coq term, observations)"""
+    T = dict(request_table())
+    rig = Rig(spec["kind"], retries=spec.get("retries"), retry_on_empty=spec.get("roe", False),
+              retry_on_invalid=spec.get("roi", False), broadcast_enable=spec.get("bcast", False),
+              tid0=spec.get("tid0", 0))
+    fs0 = rig.fstate()
+    names = sorted(T)
+    obs, rids = [], []
+    for tx in spec["txs"]:
+        o = rig.transact(T[tx["req"]], tx["unit"], [(b, dict(p)) for b, p in tx.get("script", [])], refuse=tx.get("refuse", 0))
+        obs.append(o)
+        rids.append(names.index(tx["req"]) * 1000 + tx["unit"])
+    term = "{| k_cfg := %s;\n k_table := %s;\n k_tid0 := %s; k_fs0 := %s;\n k_txs := %s |}" % (
+        cfg_term(spec["kind"], spec.get("retries"), spec.get("roe", False), spec.get("roi", False), spec.get("bcast", False)),
+        table_term(rig, obs, rids), z(spec.get("tid0", 0)), z(fs0),
+        clist(txn_term(o, rid, [b for b, _ in tx.get("script", [])]) for o, rid, tx in zip(obs, rids, spec["txs"])))
+    return term, obs
